@@ -29,7 +29,10 @@ E2E_T = e2e('transfer', 'TestVerifE2ETransfer')
 E2E_PR = e2e('pr', 'TestVerifE2EPR')
 E2E_SD = e2e('shutdown', 'TestVerifE2EShutdown')
 E2E_HS = e2e('handshake', 'TestVerifE2EHandshake', nq=384, nt=3000)
-E2E_RS = e2e('reset', 'TestVerifE2EReset')
+E2E_RS = dict(e2e('reset', 'TestVerifE2EReset'), corpus_glob='d*.ops')
+# stream reset, direct drive: two real established associations, packet histories, object handles; L0 model Rs
+RSD = {'test': 'TestVerifReset', 'comp': 'rs', 'quick': {'VERIF_N': 64}, 'thorough': {'VERIF_N': 400},
+       'seeds': {'quick': 1, 'thorough': 8}, 'corpus_glob': 'rs_*.ops'}
 E2E_API = e2e('api', 'TestVerifE2EAPI')
 E2E_TD = e2e('teardown', 'TestVerifE2ETeardown', nq=400, nt=2000)
 
@@ -67,7 +70,7 @@ PROPS = {
         'theorems are about the L0 model Hs (two endpoints + packet histories); the model is replayed line by line against two real associations driven by a packet shuffler (TestVerifHandshake)',
         'the blocking behaviour of Client/Server calls, T1 retry budget and connect failure are covered by the e2e handshake scenarios and by C19 theorems, not by the Hs model',
         'verification tags and ports are not part of the model (the implementation does not check inbound verification tags)']},
-    'C14': {'jobs': [E2E_RS], 'rule': E2E_RULE},
+    'C14': {'jobs': [RSD, E2E_RS]},
     'C10': {'jobs': [ASND, E2E_T], 'assumptions': [
         'L0 model Model/Sender.lean is hand-written; its window tests / updates / congestion formulas / chunk sizes are translator-generated Gen.* defs; the rest is tied by comparing every op of the direct-drive harness',
         'oracles (quantified over in the theorems, recorded from the real code in the harness): TLR burst budget, pending-queue selection, RACK/PTO loss marks, T3 expiries during a clock tick',
